@@ -20,7 +20,8 @@ open Poetry
 def ValOkQ (v : String) : Prop := ValOk v ∨ ('"' ∈ v.toList ∧ ∀ c ∈ v.toList, c ≠ '\'')
 
 /-- the quote character `_quoted` uses -/
-def qch (v : String) : Char := if v.toList.contains '"' then '\'' else '"'
+def qch (v : String) : Char :=
+  if !v.toList.contains '\'' && (v.toList.contains '"' || v.toList.contains '\\') then '\'' else '"'
 
 theorem quoteOf_qch (v : String) : (quoteOf v).toList = [qch v] := by
   unfold quoteOf qch; split <;> rfl
@@ -43,16 +44,24 @@ theorem markerValue_q (v : String) (rest : List Char) (h : ValOkQ v) :
   rcases h with h | ⟨hd, hs⟩
   · have hq : qch v = '"' := by
       unfold qch
-      have : v.toList.contains '"' = false := by
+      have h1 : v.toList.contains '"' = false := by
         cases hc : v.toList.contains '"' with
         | false => rfl
         | true => exact absurd rfl ((h _ (List.contains_iff_mem.mp hc)).1)
-      rw [this]; rfl
+      have h2 : v.toList.contains '\\' = false := by
+        cases hc : v.toList.contains '\\' with
+        | false => rfl
+        | true => exact absurd rfl ((h _ (List.contains_iff_mem.mp hc)).2.1)
+      rw [h1, h2]; simp
     rw [hq, markerValue_dq v.toList rest h, String.ofList_toList]
   · have hq : qch v = '\'' := by
       unfold qch
-      have : v.toList.contains '"' = true := List.contains_iff_mem.mpr hd
-      rw [this]; rfl
+      have h1 : v.toList.contains '"' = true := List.contains_iff_mem.mpr hd
+      have h2 : v.toList.contains '\'' = false := by
+        cases hc : v.toList.contains '\'' with
+        | false => rfl
+        | true => exact absurd rfl (hs _ (List.contains_iff_mem.mp hc))
+      rw [h1, h2]; simp
     rw [hq]
     simp [markerValue, singleQuoted_ok v.toList rest hs]
 
